@@ -99,14 +99,22 @@ def main():
                 m = re.match(r"^(\s*(?:\} else )?if )(?!let )(.*) \{$", code)
                 if m and not m.group(2).startswith("!"):
                     cands.append(("negate-if", l, f"{m.group(1)}!({m.group(2)}) {{"))
-                # 5. early return of unit functions' guards: `return;` removal / `?` dropped are left to compile errors
+                # 5. swap this statement with the next one (both complete one-line statements at the same indentation)
+                nxt = [x for x in lines if x[0] == i + 1]
+                if nxt and s.endswith(";") and not s.startswith(("return", "break", "continue", "}")):
+                    l2 = strip_comment(nxt[0][1])
+                    s2 = l2.strip()
+                    ind = lambda x: len(x) - len(x.lstrip())
+                    if s2.endswith(";") and ind(code) == ind(l2) and not s2.startswith(("return", "break", "continue", "}")) and s.count("(") == s.count(")") and s2.count("(") == s2.count(")") and s != s2:
+                        cands.append(("swap-with-next", l, l2 + "\n" + code))
+                # 6. early return of unit functions' guards: `return;` removal / `?` dropped are left to compile errors
                 seen = set()
                 for op, old, new in cands:
                     if new == old or (op, new) in seen:
                         continue
                     seen.add((op, new))
                     n += 1
-                    print(json.dumps({"id": n, "file": rel, "line": i + 1, "op": op, "old": old, "new": new}))
+                    print(json.dumps({"id": n, "file": rel, "line": i + 1, "op": op, "old": old, "new": new, "consume_next": op == "swap-with-next"}))
 
 
 main()
